@@ -31,6 +31,7 @@ type Engine struct {
 	immutableGlobals map[*ssa.Global]bool
 	globalInit       map[*ssa.Global]ast.Expr
 	loadSecs         float64
+	immRegions       map[string]bool
 }
 
 func childEnv() []string {
@@ -229,4 +230,87 @@ func contains(xs []string, s string) bool {
 		}
 	}
 	return false
+}
+
+// immutableFieldRegion: fields declared `immutable T.f by <writers>` keep their value across calls into
+// unknown code; checkImmutableFields verifies mechanically that only the named writers store to them.
+func (e *Engine) immutableFieldRegion(r string) bool {
+	if e.immRegions == nil {
+		e.immRegions = map[string]bool{}
+		for _, fcl := range e.cs.Fields {
+			if fcl.Class == "immutable" {
+				e.immRegions["F."+fcl.Type+"."+fcl.Field] = true
+			}
+		}
+	}
+	return e.immRegions[r]
+}
+
+// checkImmutableFields returns the stores to immutable fields made outside their declared writers.
+func (e *Engine) checkImmutableFields() []string {
+	var bad []string
+	allowed := map[string]map[string]bool{}
+	for _, fcl := range e.cs.Fields {
+		if fcl.Class != "immutable" {
+			continue
+		}
+		k := fcl.Type + "." + fcl.Field
+		allowed[k] = map[string]bool{}
+		for _, w := range strings.Fields(strings.ReplaceAll(fcl.By, ",", " ")) {
+			allowed[k][w] = true
+		}
+	}
+	for fn := range ssautil.AllFunctions(e.prog) {
+		if fn.Pkg != e.pkg {
+			continue
+		}
+		if pos := fn.Pos(); pos.IsValid() && strings.HasSuffix(e.fset.Position(pos).Filename, "_test.go") {
+			continue
+		}
+		name := fn.RelString(e.tpkg)
+		for _, b := range fn.Blocks {
+			for _, in := range b.Instrs {
+				st, ok := in.(*ssa.Store)
+				if !ok {
+					continue
+				}
+				fa, ok := st.Addr.(*ssa.FieldAddr)
+				if !ok {
+					continue
+				}
+				stt := derefType(fa.X.Type())
+				s, ok := structOf(stt)
+				if !ok {
+					continue
+				}
+				k := e.typeKey(stt) + "." + s.Field(fa.Field).Name()
+				if w, isImm := allowed[k]; isImm && !w[name] {
+					// stores into an object allocated in the same function (not yet published) are construction
+					if a, isAlloc := fa.X.(*ssa.Alloc); isAlloc && a.Heap {
+						continue
+					}
+					bad = append(bad, fmt.Sprintf("%s stores to immutable field %s at %s", name, k, e.fset.Position(st.Pos())))
+				}
+			}
+		}
+	}
+	sort.Strings(bad)
+	return bad
+}
+
+// globalOrdinal: a distinct positive number per package-level variable.
+func (e *Engine) globalOrdinal(g *ssa.Global) int {
+	var names []string
+	for n, m := range e.pkg.Members {
+		if _, ok := m.(*ssa.Global); ok {
+			names = append(names, n)
+		}
+	}
+	sort.Strings(names)
+	for i, n := range names {
+		if n == g.Name() {
+			return i + 1
+		}
+	}
+	return 0
 }
